@@ -140,6 +140,10 @@ pub trait Prop: Sync + Send {
     fn shrink(&self, _case: &Value) -> Vec<Value> {
         Vec::new()
     }
+    /// Does a known-finding key cover this failure key? (default: equality)
+    fn matches_known(&self, failure_key: &str, finding_key: &str) -> bool {
+        failure_key == finding_key
+    }
     /// Run the cases in a child process, so that a crash of the system under
     /// test (memory unsafety) is reported as a violation instead of killing the
     /// check.
@@ -183,10 +187,10 @@ impl KnownFindings {
         KnownFindings { findings }
     }
 
-    pub fn matches(&self, prop: &str, key: &str) -> Option<&(String, String, String)> {
+    pub fn matches(&self, prop: &dyn Prop, key: &str) -> Option<&(String, String, String)> {
         self.findings
             .iter()
-            .find(|(p, k, _)| p == prop && key == k)
+            .find(|(p, k, _)| p == prop.id() && prop.matches_known(key, k))
     }
 }
 
@@ -299,6 +303,8 @@ pub fn run_check(prop: &dyn Prop, opt: &CheckOptions) -> CheckResult {
     let stop = AtomicBool::new(false);
     let failures: Mutex<Vec<(u64, Failure)>> = Mutex::new(Vec::new());
     let merged: Mutex<Stats> = Mutex::new(Stats::default());
+    let known = KnownFindings::load(&opt.known_findings);
+    let early_known: Mutex<BTreeSet<String>> = Mutex::new(BTreeSet::new());
     let workers = opt.workers.max(1);
     // Watchdog: a case that runs longer than the limit is a hang of the system
     // under test (or of the harness); it cannot be interrupted, so the process
@@ -355,9 +361,16 @@ pub fn run_check(prop: &dyn Prop, opt: &CheckOptions) -> CheckResult {
                     let result = prop.run_case(opt.seed, i, opt.tier, &mut stats);
                     *running[my_slot].lock().unwrap() = None;
                     if let Some(f) = result {
+                        // a failure that is a listed finding does not stop the run
+                        if let Some((_, key, desc)) = known.matches(prop, &f.key) {
+                            early_known.lock().unwrap().insert(format!("{key} {desc}"));
+                            continue;
+                        }
                         let mut fs = failures.lock().unwrap();
-                        fs.push((i, f));
-                        // keep going a little so that distinct findings are
+                        if !fs.iter().any(|(_, g)| g.key == f.key) || fs.len() < 4 {
+                            fs.push((i, f));
+                        }
+                        // keep going a little so that distinct violations are
                         // seen, but stop after a handful
                         if fs.len() >= 8 {
                             stop.store(true, Ordering::Relaxed);
@@ -376,21 +389,30 @@ pub fn run_check(prop: &dyn Prop, opt: &CheckOptions) -> CheckResult {
     let mut failures = failures.into_inner().unwrap();
     failures.sort_by_key(|(i, _)| *i);
 
-    let known = KnownFindings::load(&opt.known_findings);
     let mut violations = 0;
-    let mut known_hits: BTreeSet<String> = BTreeSet::new();
+    let mut known_hits: BTreeSet<String> = early_known.into_inner().unwrap();
     let mut reported_keys: BTreeSet<String> = BTreeSet::new();
     let mut harness_error = false;
     std::fs::create_dir_all(&opt.replay_dir).ok();
     for (index, f) in failures {
-        if let Some((_, key, desc)) = known.matches(prop.id(), &f.key) {
+        // cheap pre-filter on the raw key, then minimise and match again: the
+        // key of a minimised failure names the specific operation
+        if let Some((_, key, desc)) = known.matches(prop, &f.key) {
             known_hits.insert(format!("{key} {desc}"));
             continue;
         }
-        if !reported_keys.insert(f.key.clone()) {
+        if reported_keys.contains(&f.key) {
             continue;
         }
         let minimised = minimise(prop, f.clone(), 400);
+        if let Some((_, key, desc)) = known.matches(prop, &minimised.key) {
+            known_hits.insert(format!("{key} {desc}"));
+            continue;
+        }
+        if !reported_keys.insert(minimised.key.clone()) {
+            continue;
+        }
+        reported_keys.insert(f.key.clone());
         let path = format!(
             "{}/{}-{}-{}.json",
             opt.replay_dir,
